@@ -28,7 +28,7 @@ def obligations(tier):
 META = dict(
     level="model_checking",
     bounds={"quick": "Layer 1: every buffer <= 12 bytes through cbor_stream_decode. Layer 2: all live head sequences <= 3 heads (17-symbol alphabet) + leaf variety + special shapes, each with every truncation offset; data bytes symbolic; serialize buffer size symbolic 0..size+1",
-            "thorough": "Layer 1: <= 16 bytes. Layer 2: <= 4 heads"},
+            "thorough": "Layer 1: <= 16 bytes. Layer 2: <= 4 heads (all of S(3), every accepted 4-head sequence, every 4th rejected and every 16th still-open 4-head sequence)"},
     tier_note="the pointer-checked safety family drops the still-open sequences of maximal length (they are truncated inputs whose cleanup paths are also reached by the mid-token truncations of the kept members and by the open sequences one head shorter); C05 runs them all",
     assumptions=["allocations succeed (refusal is C06)", "stdio stubs for cbor_describe (formatting not modelled; argument evaluation is)", "ldexp model", "DEBUG build so CBOR_ASSERT is live"],
     outside=["byte-exhaustive symbolic input to cbor_load (no verdict even at 1 byte, DESIGN 1.1): replaced by the Layer 1 lemma + skeleton enumeration", "inputs with more heads than the bound",
